@@ -89,7 +89,7 @@ def requirements(tier):
         "rt:exp-positive": 500 * k,
         "rt:year-19xx": 1000 * k,
         "rt:year-20xx": 1000 * k,
-        "fo:written": 2500 * k,
+        "fo:written": 2500 * k, "fo:epoch-label:TT": 300 * k, "fo:epoch-label:TAI": 300 * k, "fo:epoch-label:GPS": 300 * k,
         "fo:form-not-tle": 600 * k,
         "fo:frame-EME2000": 200 * k,
         "fo:refused": 50 * k,
@@ -460,8 +460,17 @@ def run_from_orbit(ctx, job, idx, rng, st):
         name_arg = None
     else:
         name_arg = name
+    # the epoch is an instant: the orbit may carry it under any scale label (zero-EOP configuration: TAI = UTC,
+    # TT = UTC + 32.184 s, GPS = UTC - 19 s exactly)
+    label = rng.choice(["UTC", "UTC", "TT", "TAI", "GPS"]) if frame == "TEME" else "UTC"
+    shift = {"UTC": 0.0, "TAI": 0.0, "TT": 32.184, "GPS": -19.0}[label]
+    descr["epoch_label"] = label
+    epoch = Date(t + dt.timedelta(seconds=shift), scale=label)
+    if abs((epoch - Date(t)).total_seconds()) > 1.5e-6:
+        raise RuntimeError("harness: labelled epoch is not the same instant")
+    ctx.count("fo:epoch-label:" + label)
     try:
-        orb = Orbit([inc, raan, e, argp, M, n_rads], Date(t), "TLE", frame, None, **meta)
+        orb = Orbit([inc, raan, e, argp, M, n_rads], epoch, "TLE", frame, None, **meta)
         if form != "tle":
             orb = orb.copy(form=form)
         ref = orb.copy(form="TLE", frame="TEME")  # the library's own conversion (C01/C02) is the expectation
